@@ -62,7 +62,7 @@ func genC15(r *vc.Rand) *C15Scn {
 	}
 	n := r.Range(1, 6)
 	for i := 0; i < n; i++ {
-		sc.Ops = append(sc.Ops, c15Op{Kind: vc.Pick(r, []string{"register", "unregister", "unregister", "disconnect", "disconnect", "cancel", "cancel", "detail", "lookup", "peer-register"}), Spell: r.Range(1, 4)})
+		sc.Ops = append(sc.Ops, c15Op{Kind: vc.Pick(r, []string{"register", "register", "unregister", "unregister", "disconnect", "disconnect", "cancel", "cancel", "detail", "lookup", "lookup-fresh", "peer-register"}), Spell: r.Range(1, 4)})
 	}
 	return sc
 }
@@ -77,9 +77,17 @@ type c15Obs struct {
 	DetailAgree bool   `json:"detail_agree"` // PairingDetailForSki(arg) == PairingDetailForSki(canonical) at the same instant
 	LookupOK    bool   `json:"lookup_ok"`    // ServiceForSKI(arg) is the canonical service object and carries the canonical SKI
 	OtherKeys   int    `json:"other_keys"`   // registry / service entries under a non-canonical key
+	Approved    bool   `json:"approved"`     // register in state pending: the waiting connection completed within 6 s
+	Dialled     bool   `json:"dialled"`      // register without connection: an outbound dial followed within 4 s
+	FreshOK     bool   `json:"fresh_ok"`     // a never seen SKI: lookup by the re-spelled and by the canonical form give one service object that keeps its settings
 }
 
-func (o c15Obs) key() string { return fmt.Sprintf("%+v", o) }
+// key: the compared effects. Dialled is recorded but not compared: whether the hub dials after a
+// register without connection depends on whether the peer's own redial arrived first (real time).
+func (o c15Obs) key() string {
+	o.Dialled = false
+	return fmt.Sprintf("%+v", o)
+}
 
 func runC15(sc *C15Scn, spelled bool) (out []c15Obs, err string) {
 	nw := NewNet()
@@ -115,6 +123,7 @@ func runC15(sc *C15Scn, spelled bool) (out []c15Obs, err string) {
 		}
 		return "other", false // handshake in flight: not a stable state
 	}
+	freshN := 0
 	for _, op := range sc.Ops {
 		arg := b.SKI
 		if spelled {
@@ -132,11 +141,32 @@ func runC15(sc *C15Scn, spelled bool) (out []c15Obs, err string) {
 			s2, stable2 := stateOf()
 			return stable2 && s2 == s
 		})
-		o := c15Obs{Before: before, DetailAgree: true, LookupOK: true}
+		o := c15Obs{Before: before, DetailAgree: true, LookupOK: true, FreshOK: true}
 		old, hadOld := a.Hub.VerifRegistry()[b.SKI]
+		accepts0 := nw.Proxy(a, b).Accepts.Load()
 		switch op.Kind {
+		case "lookup-fresh":
+			freshN++
+			fresh := fmt.Sprintf("%038x%02x", 0xabcdef, freshN)
+			farg := fresh
+			if spelled {
+				farg = respell(fresh, op.Spell)
+			}
+			s1 := a.Hub.ServiceForSKI(farg)
+			s1.SetIPv4("10.1.2.3")
+			s2 := a.Hub.ServiceForSKI(fresh)
+			o.FreshOK = s1 == s2 && s2.IPv4() == "10.1.2.3" && s1.SKI() == fresh && a.Hub.PairingDetailForSki(farg).State() == a.Hub.PairingDetailForSki(fresh).State()
 		case "register":
 			a.Register(arg)
+			switch before {
+			case "pending":
+				o.Approved = WaitFor(6*time.Second, func() bool {
+					e, ok := a.Hub.VerifRegistry()[b.SKI]
+					return ok && e.State == 38
+				})
+			case "no-connection":
+				o.Dialled = WaitFor(4*time.Second, func() bool { return nw.Proxy(a, b).Accepts.Load() > accepts0 })
+			}
 		case "unregister":
 			a.Unregister(arg)
 		case "disconnect":
@@ -170,38 +200,74 @@ func runC15(sc *C15Scn, spelled bool) (out []c15Obs, err string) {
 	return out, ""
 }
 
-func evalC15(col *vc.Collector, sc *C15Scn) {
-	const prop = "C15"
-	col.Eval(prop, 1)
+// twinRun executes the script on two fresh hub pairs (canonical / re-spelled) and returns the first
+// step whose effects differ (-1: none), or comparable=false if the runs left the common state first.
+func twinRun(sc *C15Scn) (canon, spelledRes []c15Obs, step int, setupErr bool) {
 	type runRes struct {
 		o   []c15Obs
 		err string
 	}
-	ch := make(chan runRes, 2)
+	ch := make(chan runRes, 1)
 	go func() { o, e := runC15(sc, false); ch <- runRes{o, e} }()
-	spelledRes, spelledErr := runC15(sc, true)
-	canon := <-ch
-	if canon.err != "" || spelledErr != "" {
+	sp, spErr := runC15(sc, true)
+	cn := <-ch
+	if cn.err != "" || spErr != "" {
+		return nil, nil, -1, true
+	}
+	for i := range sc.Ops {
+		co, so := cn.o[i], sp[i]
+		if co.Before != so.Before || co.Before == "other" {
+			return cn.o, sp, -1, false
+		}
+		if co.key() != so.key() {
+			return cn.o, sp, i, false
+		}
+	}
+	return cn.o, sp, -1, false
+}
+
+func evalC15(col *vc.Collector, sc *C15Scn) {
+	const prop = "C15"
+	col.Eval(prop, 1)
+	canon, spelledRes, step, setupErr := twinRun(sc)
+	if setupErr {
 		col.Inconclusive(prop, "setup")
 		return
 	}
 	for i, op := range sc.Ops {
-		co, so := canon.o[i], spelledRes[i]
+		co, so := canon[i], spelledRes[i]
 		if co.Before != so.Before || co.Before == "other" {
 			// the two real-time runs are not in the same hub state here: nothing to compare from this step on
 			col.Count(prop, "steps-not-comparable", len(sc.Ops)-i)
-			return
+			break
 		}
 		col.Class(prop, fmt.Sprintf("%s:in=%s:spell=%d", op.Kind, co.Before, op.Spell))
 		col.Count(prop, "steps-compared", 1)
-		if co.key() != so.key() {
-			wit := map[string]any{"scenario": sc, "step": i, "canonical": canon.o, "respelled": spelledRes}
-			col.Violation(prop, fmt.Sprintf("divergence:%s:in-%s", op.Kind, co.Before),
-				fmt.Sprintf("step %d (%s with spelling %d in state %s): canonical %+v / re-spelled %+v", i, op.Kind, op.Spell, co.Before, co, so), sc.ID, wit)
-			return
+		if i == step {
+			break
 		}
 	}
+	if step >= 0 {
+		// a formatting defect is deterministic, a timing difference between two real-time runs is
+		// not: the divergence has to show again at the same step in two further twin runs
+		again := 0
+		for k := 0; k < 2; k++ {
+			_, _, st2, e2 := twinRun(sc)
+			if !e2 && st2 == step {
+				again++
+			}
+		}
+		op := sc.Ops[step]
+		if again == 2 {
+			wit := map[string]any{"scenario": sc, "step": step, "canonical": canon, "respelled": spelledRes}
+			col.Violation(prop, fmt.Sprintf("divergence:%s:in-%s", op.Kind, canon[step].Before),
+				fmt.Sprintf("step %d (%s with spelling %d in state %s), reproduced in 3 of 3 twin runs: canonical %+v / re-spelled %+v", step, op.Kind, op.Spell, canon[step].Before, canon[step], spelledRes[step]), sc.ID, wit)
+		} else {
+			col.Inconclusive(prop, "divergence-not-reproduced(timing)")
+		}
+		return
+	}
 	if col.WantSample(prop) {
-		col.Sample(prop, map[string]any{"ops": sc.Ops, "effects": canon.o})
+		col.Sample(prop, map[string]any{"ops": sc.Ops, "effects": canon})
 	}
 }
